@@ -243,6 +243,7 @@ class RuleRecorder:
         self.lit = {}
         self.dx = {}
         self.vec = []
+        self.rpd = {}
         self._orig = []
 
     def _dump(self, e):
@@ -344,6 +345,40 @@ class RuleRecorder:
         vfm.VForm.substitute_vec_components = substitute_vec_components
         self._orig.append((vfm.VForm, 'substitute_vec_components', orig))
 
+    def install_rpd(self):
+        """VForm.replace_physical_derivs(e) for basis-function derivatives: (dim, spacetime, e) ->
+        (result, definitions of the helper variables the result refers to, as they are right after the call)"""
+        vfm = self.vfm
+        rr = self
+        orig = vfm.VForm.replace_physical_derivs
+
+        def replace_physical_derivs(self_, e):
+            out = orig(self_, e)
+            if out is not None and type(e) is vfm.PartialDerivExpr and len(rr.rpd) < 60:
+                import json
+                try:
+                    din = dump_expr(vfm, e, [50])
+                    key = json.dumps([int(self_.dim), bool(self_.spacetime), din])
+                    if key not in rr.rpd:
+                        dout = dump_expr(vfm, out, [4000])
+                        names = []
+
+                        def walk(d):
+                            if isinstance(d, list) and d:
+                                if d[0] == 'VR' and d[1].startswith('_') and d[1] not in names:
+                                    names.append(d[1])
+                                for x in d[1:]:
+                                    if isinstance(x, list):
+                                        walk(x)
+                        walk(dout)
+                        defs = [[n, dump_expr(vfm, self_.vars[n].expr, [4000])] for n in names]
+                        rr.rpd[key] = [dout, defs]
+                except TooBig:
+                    pass
+            return out
+        vfm.VForm.replace_physical_derivs = replace_physical_derivs
+        self._orig.append((vfm.VForm, 'replace_physical_derivs', orig))
+
     def uninstall(self):
         for (obj, name, orig) in reversed(self._orig):
             setattr(obj, name, orig)
@@ -354,6 +389,7 @@ class RuleRecorder:
         out = {'fold': [[json.loads(k), v] for k, v in self.fold.items()],
                'lit': [[json.loads(k), v] for k, v in self.lit.items()],
                'dx': [[json.loads(k), v] for k, v in self.dx.items()],
-               'vec': self.vec}
-        self.fold, self.lit, self.dx, self.vec = {}, {}, {}, []
+               'vec': self.vec,
+               'rpd': [[json.loads(k), v] for k, v in self.rpd.items()]}
+        self.fold, self.lit, self.dx, self.vec, self.rpd = {}, {}, {}, [], {}
         return out
